@@ -20,9 +20,15 @@ def _log(owner, name, args):
     world.vt_c14_log.append((owner, name, list(args)))
 
 def _make(name):
-    k = name[0]
     def command(self, irc, msg, args):
         _log(self.name(), name, args)
+        _act(name[0], name, irc, msg, args)
+    command.__name__ = name
+    command.__doc__ = "<anything>\n\nSynthetic C14 command %s." % name
+    return command
+
+def _act(k, name, irc, msg, args):
+    if True:
         text = name + '(' + ', '.join(args) + ')'
         if k in 'rbvlh':
             irc.reply(text)
@@ -50,9 +56,6 @@ def _make(name):
             raise callbacks.ArgumentError
         elif k == 'q':
             raise callbacks.SilentError
-    command.__name__ = name
-    command.__doc__ = "<anything>\n\nSynthetic C14 command %s." % name
-    return command
 
 def _fill(cls, names):
     for n in names:
@@ -62,5 +65,20 @@ class VtOrderB(callbacks.Plugin):
     """Synthetic C14 plugin B (not threaded; a command named like the plugin itself)."""
     threaded = False
 _fill(VtOrderB, ['rone', 'both', 'rbee', 'nrep', 'vtorderb', 'erro', 'igno', 'rdis', 'help', 'oemp'])
+
+def _invalidCommand(self, irc, msg, tokens):
+    """an invalidCommand handler: answers for first tokens `binv<k>...` (behaviour letter <k>) and
+    `cinv<kb><ka>...` (letter <kb> in VtOrderB, <ka> in VtOrderA); lets everything else pass"""
+    if not tokens:
+        return
+    t = tokens[0]
+    if len(t) >= 5 and t[1:4] == 'inv' and t[0] == 'b':
+        k = t[4]
+    elif len(t) >= 6 and t[:4] == 'cinv':
+        k = t[4] if 'b' == 'b' else t[5]
+    else:
+        return
+    _act(k, t, irc, msg, tokens[1:])
+VtOrderB.invalidCommand = _invalidCommand
 
 Class = VtOrderB
